@@ -459,4 +459,132 @@ Proof.
     apply cntnot_mono. intros i _. apply MP; [apply NF|]. intros x Hx. destruct (NC x Hx).
   - intros _ _. apply cntnot_nonneg.
 Qed.
+
+(* a timer expiry pays one: by its doubling below Theta, by gaining a witness (or the lock) above *)
+Lemma Psi_expire st a rest st' id s' o nw kp k news :
+  Good st -> Good st' -> l_agenda st = a :: rest -> Tr lc st a rest st' ->
+  ae_ev a = ATimerFire id -> has_timer id (timers (l_snd st)) = true ->
+  step repaired (lc_cfg lc) (l_snd st) (EExpire id) = Ok s' o -> oeff lc (ae_time a) (l_n1 st) o = (nw, kp, k) -> kp = tx_ids o ->
+  l_snd st' = norm_sender s' -> l_now st' = ae_time a -> l_n2 st' = l_n2 st ->
+  l_wd st' = mkwd (wd_items (l_wd st) ++ kp) (wd_waiting (l_wd st)) ->
+  AddsT rest (l_agenda st') news -> (forall n, In n nw -> In n news) ->
+  Psi st' + 1 <= Psi st.
+Proof.
+  intros G G' E HT Ea Hht Hstep Ho Hkp Hsnd Hnow Hn2 Hwd HA' Hsub.
+  pose proof (la_sinv _ _ _ (g_A _ G)) as I. set (s := l_snd st) in *.
+  assert (Hk : In id (keys (timers s))) by (apply has_timer_In; exact Hht).
+  assert (Hs : in_sent id (sent s) = true) by (apply in_sent_In; rewrite <- (si_keys _ _ I); exact Hk).
+  cbn [step] in Hstep. unfold on_timer in Hstep. rewrite Hht in Hstep. cbn [negb] in Hstep. unfold resend in Hstep. proj. rewrite Hs in Hstep.
+  injection Hstep as <- <-. cbn [app tx_ids flat_map] in Hkp. subst kp.
+  set (r' := (rto s * (2 # 1))%Q) in *.
+  assert (HinF : In (nq (ae_time a + r'), ATimerFire id) news).
+  { apply Hsub. cbn [oeff] in Ho. destruct (droppedD lc (l_n1 st)); inversion Ho; subst nw; try (left; reflexivity); right; left; reflexivity. }
+  pose proof (si_rto _ _ I) as Hrto.
+  assert (HX : last_ack (l_snd st') = last_ack s) by (rewrite Hsnd; reflexivity).
+  destruct (stat_mono_step st a rest st' G E HT HX (or_intror Hn2)) as (MP & ML & MZ).
+  assert (NC : forall x, ~ consumed lc st a x) by (intros x; apply not_consumed; apply no_consume_plain; right; right; eauto).
+  destruct (nofire st a rest id G E Ea Hk) as [NP NL].
+  assert (Ek : keys (timers (l_snd st')) = keys (timers s)).
+  { rewrite Hsnd. unfold norm_sender; proj. rewrite keys_norm, keys_rearm. reflexivity. }
+  assert (Eu : unsent (l_snd st') = unsent s) by (rewrite Hsnd; reflexivity).
+  assert (Ed : dupt (l_snd st') = dupt s) by (rewrite Hsnd; reflexivity).
+  assert (Er : lgz Theta (rto (l_snd st')) = lgz Theta r') by (rewrite Hsnd, lgz_norm; reflexivity).
+  assert (MonoP : forall i, In i (keys (timers s)) -> statP lc st i = true -> statP lc st' i = true).
+  { intros i _ Hi. apply MP; [rewrite Ea; intros Eq; injection Eq as <-; congruence| |exact Hi]. intros x Hx. destruct (NC x Hx). }
+  assert (MonoL : forall i, In i (keys (timers s)) -> statL lc st i = true -> statL lc st' i = true).
+  { intros i _ Hi. apply ML; [rewrite Ea; intros Eq; injection Eq as <-; congruence| |exact Hi]. intros x Hx. destruct (NC x Hx). }
+  assert (MonoZ : zmode lc st = true -> zmode lc st' = true) by (apply MZ; intros x Hx; destruct (NC x Hx)).
+  destruct (Qlt_le_dec (rto s) Theta) as [Hlow|Hhigh].
+  - (* below Theta: the doubling pays *)
+    apply (Psi_cmp st st' 1 1 0 0 G G'); try lia.
+    + rewrite Er. pose proof (lgz_double Theta (rto s) Hrto Hlow). fold r' in H. fold s. lia.
+    + exact MonoZ.
+    + intros _. rewrite Ek, Eu. pose proof (cntnot_mono _ _ _ MonoL). fold s. lia.
+    + intros _. rewrite Ek, Eu, Ed. pose proof (cntnot_mono _ _ _ MonoP). fold s. lia.
+    + intros _ _. apply cntnot_nonneg.
+  - (* at or above Theta: the re-armed timer is due after everything in flight *)
+    assert (Hitems : wd_items (l_wd st') = wd_items (l_wd st) ++ [id]) by (rewrite Hwd; reflexivity).
+    destruct (new_item_in st' id _ Hitems) as (td & Hx0).
+    pose proof (new_fire_in _ _ _ _ _ HA' HinF) as Hf0.
+    assert (HD : (l_now st' + (nlen (wd_items (l_wd st')) + 2) * d < nq (ae_time a + r'))%Q).
+    { rewrite Hnow, Hitems, nlen_app, nq_eq.
+      assert (E1 : (nlen [id] == 1)%Q) by reflexivity. rewrite E1.
+      pose proof (g_q _ G) as Hq. unfold r'.
+      assert (E2 : ((nlen (wd_items (l_wd st)) + 1 + 2) * d == (nlen (wd_items (l_wd st)) + 3) * d)%Q) by ring.
+      rewrite E2. lra. }
+    assert (GP : statP lc st' id = true).
+    { eapply statP_intro; [exact Hf0|exact Hx0|cbn; apply Z.eqb_refl|eapply all_before; eauto]. }
+    assert (GL : zmode lc st' = true -> statL lc st' id = true).
+    { intros Hz. destruct (zmode_elim st' Hz) as (x & Hx & Hxx). eapply statL_intro; [exact Hf0|exact Hx|exact Hxx|eapply all_before; eauto]. }
+    apply (Psi_cmp st st' 1 0 1 1 G G'); try lia.
+    + rewrite Er. pose proof (lgz_mono Theta (rto s) r' Hrto ltac:(unfold r'; lra)). fold s. lia.
+    + exact MonoZ.
+    + intros Hz. rewrite Ek, Eu. pose proof (cntnot_gain _ _ _ id Hk NL (GL (MonoZ Hz)) MonoL). fold s. lia.
+    + intros _. rewrite Ek, Eu, Ed. pose proof (cntnot_gain _ _ _ id Hk NP GP MonoP). fold s. lia.
+    + intros _ _. apply (cntnot_pos _ _ id Hk NP).
+Qed.
+
+(* a duplicate ACK: it may take a timer's witness away; the first two are paid by the duplicate
+   counter, from the third on the segment at last_ack is retransmitted and an X-item is in flight *)
+Lemma Psi_dupack st a rest st' k p sample orc s' o nw kp kk :
+  Good st -> Good st' -> l_agenda st = a :: rest -> Tr lc st a rest st' ->
+  ev_sender lc st (ae_time a) (ae_ev a) (EAck k p sample orc) true ->
+  step repaired (lc_cfg lc) (l_snd st) (EAck k p sample orc) = Ok s' o -> last_ack s' = last_ack (l_snd st) ->
+  oeff lc (ae_time a) (l_n1 st) o = (nw, kp, kk) -> kp = tx_ids o ->
+  l_snd st' = norm_sender s' -> l_n2 st' = l_n2 st ->
+  l_wd st' = mkwd (wd_items (l_wd st) ++ kp) (wd_waiting (l_wd st)) ->
+  Psi st' <= Psi st.
+Proof.
+  intros G G' E HT Hev Hstep HXs Ho Hkp Hsnd Hn2 Hwd.
+  pose proof (la_sinv _ _ _ (g_A _ G)) as I. set (s := l_snd st) in *.
+  assert (Hdp : 0 <= dupack s) by apply (si_win _ _ I).
+  pose proof Hstep as Hstep0. cbn [step] in Hstep.
+  apply on_ack_shape in Hstep; [|exact Hdp]. destruct Hstep as (Fn & _ & _ & _ & _ & [D|Nw]);
+    [|destruct Nw as (Hne & Hl & _); congruence].
+  destruct D as (Ek & _ & Fd & Ft & Fs & _ & _ & Fr & _ & _ & Fo). subst k.
+  set (X := last_ack s) in *.
+  assert (HX : last_ack (l_snd st') = X) by (rewrite Hsnd; exact HXs).
+  destruct (stat_mono_step st a rest st' G E HT HX (or_intror Hn2)) as (MP & ML & MZ).
+  assert (Hcons : forall x, consumed lc st a x -> fst x = IA X p).
+  { intros x [_ Hx]. unfold hA1, hA1te in Hx. destruct (ae_ev a) eqn:Eev; inversion Hev; subst; destruct Hx as [<-|[]]; reflexivity. }
+  assert (NX : forall x, consumed lc st a x -> isX X (fst x) = false).
+  { intros x Hx. rewrite (Hcons x Hx). cbn [isX]. apply Z.ltb_irrefl. }
+  assert (NF : forall i, ae_ev a <> ATimerFire i) by (intros i Hi; rewrite Hi in Hev; inversion Hev).
+  assert (EkS : keys (timers (l_snd st')) = keys (timers s)).
+  { rewrite Hsnd. change (timers (norm_sender s')) with (map (fun q : Z * Q => (fst q, nq (snd q))) (timers s')). rewrite keys_norm, Ft. reflexivity. }
+  assert (Eu : unsent (l_snd st') = unsent s) by (unfold unsent; rewrite Hsnd; change (next_seq (norm_sender s')) with (next_seq s'); rewrite Fn; reflexivity).
+  assert (Edp : dupack (l_snd st') = dupack s + 1) by (rewrite Hsnd; exact Fd).
+  assert (MonoL : forall i, In i (keys (timers s)) -> statL lc st i = true -> statL lc st' i = true).
+  { intros i _ Hi. apply ML; [apply NF|exact NX|exact Hi]. }
+  assert (MonoP : forall i, In i (keys (timers s)) -> i <> p -> statP lc st i = true -> statP lc st' i = true).
+  { intros i _ Hip Hi. apply MP; [apply NF| |exact Hi]. intros x Hx. rewrite (Hcons x Hx). cbn [isW]. apply Z.eqb_neq. congruence. }
+  assert (Hnd : NoDup (keys (timers s))) by (rewrite (si_keys _ _ I); apply (si_nodup _ _ I)).
+  assert (Psi st' + 0 <= Psi st); [|lia].
+  apply (Psi_cmp st st' 0 0 0 0 G G'); try lia.
+  - rewrite Hsnd, lgz_norm, Fr. fold s. lia.
+  - apply MZ. exact NX.
+  - intros _. rewrite EkS, Eu. pose proof (cntnot_mono _ _ _ MonoL). fold s. lia.
+  - intros Hz'. rewrite EkS, Eu. fold s.
+    pose proof (cntnot_mono_but (statP lc st) (statP lc st') _ p Hnd MonoP) as Hc1.
+    unfold dupt. rewrite Edp.
+    destruct (Z_le_gt_dec (dupack s + 1) 2) as [Hsmall|Hbig]; [lia|].
+    (* third duplicate or later *)
+    destruct (Z_lt_ge_dec X (next_seq s)) as [Hout|Hall].
+    + exfalso. pose proof (u_la_sent _ _ (g_U _ G) Hout) as Hin. fold s in Hin. fold X in Hin. apply in_sent_In in Hin.
+      assert (Eo : o = [Tx X m]).
+      { cbn [step] in Hstep0. unfold X in Hstep0, Hin. destruct (Z.eq_dec (dupack s) 2) as [E2|E2].
+        - rewrite (fast_retransmit_rule repaired (lc_cfg lc) s p sample orc E2 Hin) in Hstep0. injection Hstep0 as _ <-. reflexivity.
+        - assert (Hcw : (0 <= cwnd s)%Q).
+          { destruct (si_win _ _ I) as (Hc & _). assert (0 < zq m)%Q by (apply (zq_lt 0); exact Hm). lra. }
+          rewrite (more_dupacks_rule repaired (lc_cfg lc) s p sample orc ltac:(lia) Hcw Hm Hin) in Hstep0. injection Hstep0 as _ <-. reflexivity. }
+      rewrite Eo in Hkp. cbn [tx_ids flat_map app] in Hkp. subst kp.
+      destruct (new_item_in st' X (wd_items (l_wd st)) ltac:(rewrite Hwd; reflexivity)) as (td & Hx0).
+      assert (zmode lc st' = true); [|congruence].
+      eapply zmode_intro; [exact Hx0|]. rewrite HX. cbn [fst isX]. apply Z.eqb_refl.
+    + assert (Hnse : X <= next_seq s).
+      { pose proof (lb_la _ _ _ (g_B _ G)). pose proof (LInvB_nse_le lc st None Hm (g_B _ G)). unfold X, s. lia. }
+      assert (Et : timers s = []) by (apply (u_all_acked _ _ (g_U _ G)); fold s; fold X; lia).
+      rewrite Et. unfold keys, cntnot. cbn [map filter length Z.of_nat]. lia.
+  - intros _ _. apply cntnot_nonneg.
+Qed.
 End Pot3.
